@@ -440,6 +440,129 @@ func runC20(c *core.Ctx) {
 		}
 	})
 	c.Evals += int64(len(cases))
+	// every rule: the small-scope and scale families under the default set, under the explicit list with
+	// the four suggestion-free variants, and (one worker, the registry is global) under the default set
+	// after ReplaceRule has put each variant in the place of its standard rule, after AddRule and
+	// after RemoveRule; every error is a full error named after its rule
+	ssCases := append(SmallScopeLight(), ScaleDocsUpTo(300, 4097)...)
+	ssSchema, _ := loadImpl(smallScopeSchema)
+	checkErrs := func(entry string, k VCase, errs gqlerror.List) {
+		for _, e := range errs {
+			note(entry, e)
+			if m := wellFormedProblem(e, "validation", nil); m != "" {
+				report(entry, m, map[string]interface{}{"schema": k.Srcs, "query": k.Query[:min(400, len(k.Query))], "error": e.Message, "rule": e.Rule})
+			}
+			if f, _ := e.Extensions["file"].(string); f != "q.graphql" {
+				report(entry, "validation error of a named source does not carry its file name", map[string]interface{}{"query": k.Query[:min(400, len(k.Query))], "error": e.Message, "rule": e.Rule})
+			}
+			for _, l := range e.Locations {
+				if len(k.Query) < 5000 && !located(k.Query, l.Line, l.Column) {
+					report(entry, fmt.Sprintf("location %d:%d does not exist in the document", l.Line, l.Column), map[string]interface{}{"query": k.Query, "error": e.Message})
+				}
+			}
+		}
+	}
+	c.Pool.ParFor(len(ssCases), func(w, i int) {
+		k := ssCases[i]
+		doc, perr := parser.ParseQuery(&ast.Source{Name: "q.graphql", Input: k.Query})
+		if perr != nil {
+			return
+		}
+		checkErrs("Validate", k, validator.Validate(ssSchema, doc))
+		checkErrs("Validate(rules without suggestions)", k, validator.Validate(ssSchema, doc, selectRules(NoSuggestSet)...))
+	})
+	c.Evals += int64(2 * len(ssCases))
+	{
+		before := make([]string, len(ssCases))
+		docs := make([]*ast.QueryDocument, len(ssCases))
+		for i, k := range ssCases {
+			docs[i], _ = parser.ParseQuery(&ast.Source{Name: "q.graphql", Input: k.Query})
+			if docs[i] != nil {
+				before[i] = strings.Join(fullErrors(validator.Validate(ssSchema, docs[i])), "\n")
+			}
+		}
+		registry := func(entry string, change, undo func(), expect func(i int) string) {
+			change()
+			for i, k := range ssCases {
+				if docs[i] == nil {
+					continue
+				}
+				errs := validator.Validate(ssSchema, docs[i])
+				checkErrs(entry, k, errs)
+				if expect != nil {
+					if got, want := strings.Join(fullErrors(errs), "\n"), expect(i); got != want {
+						report(entry, "the default set after the change does not report what the explicit list of its rules reports", map[string]interface{}{"query": k.Query[:min(400, len(k.Query))], "default_set": got[:min(600, len(got))], "explicit_list": want[:min(600, len(want))]})
+					}
+				}
+			}
+			undo()
+			for i, k := range ssCases {
+				if docs[i] == nil || i%7 != 0 {
+					continue
+				}
+				if got := strings.Join(fullErrors(validator.Validate(ssSchema, docs[i])), "\n"); got != before[i] {
+					report(entry, "the default set differs after the change was undone", map[string]interface{}{"query": k.Query[:min(400, len(k.Query))], "now": got[:min(600, len(got))], "before": before[i][:min(600, len(before[i]))]})
+				}
+			}
+		}
+		for _, ns := range NoSuggestRuleNames {
+			std := strings.TrimSuffix(ns, "WithoutSuggestions")
+			// the documented way of switching suggestions off: the variant's function under the standard name
+			var names []string
+			for _, n := range DefaultRuleNames {
+				if n == std {
+					n = ns
+				}
+				names = append(names, n)
+			}
+			rs := selectRules(strings.Join(names, ","))
+			registry("ReplaceRule("+std+", variant) + Validate",
+				func() { validator.ReplaceRule(std, AllRules[ns].RuleFunc) },
+				func() { validator.ReplaceRule(std, AllRules[std].RuleFunc) },
+				func(i int) string {
+					// the same errors as the explicit list, tagged with the name the rule is registered under
+					out := fullErrors(validator.Validate(ssSchema, docs[i], rs...))
+					for j := range out {
+						if strings.HasPrefix(out[j], ns+"|") {
+							out[j] = std + strings.TrimPrefix(out[j], ns)
+						}
+					}
+					return strings.Join(out, "\n")
+				})
+		}
+		extra := func(observers *validator.Events, addError validator.AddErrFunc) {
+			observers.OnOperation(func(walker *validator.Walker, op *ast.OperationDefinition) {
+				addError(validator.Message("operation %s seen", op.Name), validator.At(op.Position))
+			})
+		}
+		registry("AddRule + Validate", func() { validator.AddRule("SeenOperations", extra) }, func() { validator.RemoveRule("SeenOperations") }, nil)
+		registry("ReplaceRule(new name) + Validate", func() { validator.ReplaceRule("SeenOperations2", extra) }, func() { validator.RemoveRule("SeenOperations2") }, nil)
+		registry("RemoveRule + Validate", func() { validator.RemoveRule("NoUnusedVariables") }, func() {
+			// put it back where it was: remove and re-add what followed it
+			idx := -1
+			for j, n := range DefaultRuleNames {
+				if n == "NoUnusedVariables" {
+					idx = j
+				}
+			}
+			for _, n := range DefaultRuleNames[idx+1:] {
+				validator.RemoveRule(n)
+			}
+			for _, n := range DefaultRuleNames[idx:] {
+				validator.AddRule(n, AllRules[n].RuleFunc)
+			}
+		}, func(i int) string {
+			var names []string
+			for _, n := range DefaultRuleNames {
+				if n != "NoUnusedVariables" {
+					names = append(names, n)
+				}
+			}
+			return strings.Join(fullErrors(validator.Validate(ssSchema, docs[i], selectRules(strings.Join(names, ","))...)), "\n")
+		})
+		c.Evals += int64(8 * len(ssCases))
+		c.Count("registry_change_sequences", 7)
+	}
 	// coercion errors
 	sdl := varsSchema + "\ndirective @tag(x: Any) on FIELD"
 	vs, _ := loadImpl(sdl)
